@@ -19,11 +19,19 @@ const KINDS = {
   obj: { v: '={{ a: 1 }}', dyn: false },
   dyn: { v: '={x}', dyn: true },
   dynCall: { v: '={f()}', dyn: true },
+  // type-only wrappers change nothing at run time: a wrapped dynamic value is still dynamic (.tsx)
+  dynAs: { v: '={x as any}', dyn: true, ts: true, only: ['class', 'id', 'style', 'onClick', 'key'] },
+  dynNN: { v: '={x!}', dyn: true, ts: true, only: ['class', 'id'] },
+  dynParen: { v: '={(x)}', dyn: true, only: ['class', 'id', 'ref'] },
+  arrDynConst: { v: '={[x, 1] as const}', dyn: true, ts: true, only: ['class', 'id', 'style'] },
+  objDynConst: { v: '={{ a: x } as const}', dyn: true, ts: true, only: ['class', 'id', 'style'] },
+  arrAsConst: { v: '={[1, 2] as const}', dyn: false, ts: true, only: ['id'] },
 };
 const ATOMS = [];
 for (const n of NAMES) for (const k of Object.keys(KINDS)) {
   if (k === 'dynCall' && !['class', 'id', 'onClick'].includes(n)) continue;
-  ATOMS.push({ id: `${n}/${k}`, src: n + KINDS[k].v, name: n, dyn: KINDS[k].dyn });
+  if (KINDS[k].only && !KINDS[k].only.includes(n)) continue;
+  ATOMS.push({ id: `${n}/${k}`, src: n + KINDS[k].v, name: n, dyn: KINDS[k].dyn, ts: !!KINDS[k].ts });
 }
 const SPECIALS = [
   { id: 'spread', src: '{...s1}', special: 'fullprops' },
@@ -67,11 +75,13 @@ function* trees(depth) {
   for (const a of ks) for (const b of ks) if (typeof a === 'string' || typeof b === 'string') yield { c: [a, b] };
 }
 const LEAF_SRC = { bx: '{x}', ux: '{u}', call: '{f()}', text: 'txt', el: '<b/>' };
-function treeSrc(t, names) {
+// every component of the tree may carry an attribute whose value is itself JSX (bare or braced): props, not slot content
+const TREE_ATTRS = { none: '', bare: ' icon=<i/>', braced: ' icon={<i/>}', bareComp: ' icon=<B>{y}</B>', bareFrag: ' icon=<>t</>' };
+function treeSrc(t, names, attr = '') {
   if (typeof t === 'string') return LEAF_SRC[t];
-  if (t.e) return `<div>${t.e.map((k) => treeSrc(k, names)).join('')}</div>`;
+  if (t.e) return `<div>${t.e.map((k) => treeSrc(k, names, attr)).join('')}</div>`;
   const tag = names.pop();
-  return `<${tag}>${t.c.map((k) => treeSrc(k, names)).join('')}</${tag}>`;
+  return `<${tag}${attr}>${t.c.map((k) => treeSrc(k, names, attr)).join('')}</${tag}>`;
 }
 function needsDynamic(t) { // does the slot of component node t need `_: 2`?
   const walk = (k) => (typeof k === 'string' ? k === 'bx' : k.e ? k.e.some(walk) : k.c.some(walk));
@@ -129,8 +139,8 @@ function spaces(tier) {
     },
     {
       name: 'S:slot-trees',
-      bounds: { depth: 2, leaves: LEAVES, note: 'nested component trees, with plain-element wrappers, for the `_` slot flag' },
-      *gen() { for (const t of trees(2)) yield { sp: 'S', t }; },
+      bounds: { depth: 2, leaves: LEAVES, component_attributes: TREE_ATTRS, attribute_depth: thorough ? 2 : 1, note: 'nested component trees, with plain-element wrappers, for the `_` slot flag' },
+      *gen() { for (const a of Object.keys(TREE_ATTRS)) for (const t of trees(a === 'none' || thorough ? 2 : 1)) yield { sp: 'S', t, a }; },
     },
   ];
   return sp;
@@ -141,10 +151,10 @@ const byId = new Map(ALPHA.map((a) => [a.id, a]));
 function requests(c) {
   if (c.sp === 'S') {
     const names = ['B', 'Comp', 'B', 'Comp', 'B', 'Comp', 'B', 'Comp'];
-    return [{ src: E.PRELUDE + `__out.mk = () => (${treeSrc(c.t, names)});\n`, want: ['eval'], opts: JSON.stringify({ optimize: true }) }];
+    return [{ src: E.PRELUDE + `__out.mk = () => (${treeSrc(c.t, names, TREE_ATTRS[c.a || 'none'])});\n`, want: ['eval'], opts: JSON.stringify({ optimize: true }) }];
   }
   const jsx = E.renderJsx(c.host, c.at.map((id) => byId.get(id).src), []);
-  return [{ src: E.renderModule(c.host, jsx), want: ['eval'], opts: JSON.stringify({ optimize: true, transformOn: c.ton, mergeProps: c.mp }) }];
+  return [{ src: E.renderModule(c.host, jsx), ts: c.at.some((id) => byId.get(id).ts), want: ['eval'], opts: JSON.stringify({ optimize: true, transformOn: c.ton, mergeProps: c.mp }) }];
 }
 
 function judgeFlags(c, v, viol) {
@@ -267,7 +277,7 @@ function* shrinkTree(t) {
 }
 
 function* shrink(c) {
-  if (c.sp === 'S') { for (const t of shrinkTree(c.t)) yield { sp: 'S', t }; return; }
+  if (c.sp === 'S') { if (c.a && c.a !== 'none') yield { sp: 'S', t: c.t, a: 'none' }; for (const t of shrinkTree(c.t)) yield { sp: 'S', t, a: c.a }; return; }
   for (let i = 0; i < c.at.length; i++) yield Object.assign({}, c, { at: c.at.slice(0, i).concat(c.at.slice(i + 1)) });
   if (c.host !== 'div') yield Object.assign({}, c, { host: 'div' });
   if (c.ton) yield Object.assign({}, c, { ton: false });
@@ -275,7 +285,7 @@ function* shrink(c) {
 }
 
 function caseKey(c) {
-  if (c.sp === 'S') return 'S:' + treeKey(c.t);
+  if (c.sp === 'S') return 'S:' + treeKey(c.t) + (c.a && c.a !== 'none' ? ' @' + c.a : '');
   return `F:${c.host}[${c.at.join(' ')}]{${c.ton ? 'transformOn' : ''}${c.mp ? '' : ' mergeProps=off'}}`;
 }
 
